@@ -12,16 +12,18 @@
 (*   "dep"    a stylesheet that loads `dep`; where dep.scss exists is the   *)
 (*            layout: "dir" (next to the input), "lp" (in the load path),   *)
 (*            "both" (the input's directory wins), "none" (load fails)      *)
+(*   "dep2"   like "dep", after a load of `w`, which exists only in the     *)
+(*            load path: an earlier load never changes how `dep` resolves   *)
 (***************************************************************************)
 EXTENDS Integers, Sequences, TLC
 
-Kinds   == {"plain", "bad", "dep"}
+Kinds   == {"plain", "bad", "dep", "dep2"}      \* "dep2": loads `w` (only in the load path) and then `dep`
 Layouts == {"dir", "lp", "both", "none"}
 
 (* does a file of this kind compile under this layout, and which copy of    *)
 (* dep does it see ("-" none, "D" the one next to the input, "L" load path) *)
-Compiles(kind, layout) == kind = "plain" \/ (kind = "dep" /\ layout # "none")
-DepSeen(kind, layout)  == IF kind # "dep" \/ layout = "none" THEN "-"
+Compiles(kind, layout) == kind = "plain" \/ (kind \in {"dep", "dep2"} /\ layout # "none")
+DepSeen(kind, layout)  == IF kind \notin {"dep", "dep2"} \/ layout = "none" THEN "-"
                           ELSE IF layout \in {"dir", "both"} THEN "D" ELSE "L"
 
 VARIABLES files, layout, i, exit, emitted
